@@ -19,6 +19,7 @@ THEOREMS = [
     "CrCube.C06.restrict_specCount",
     "CrCube.C06.partition_ca_item",
     "CrCube.C06.partitions_count_ca",
+    "CrCube.C06.partition_restricts_ca",
 ]
 RULE = ("five case families: 3-D cubes (table cat-like/MR x rows x cols over cat/mr), CA x X (table = CA items), "
         "multi-cube sets (tabbook style), CA-as-0th sets, numeric-measure sets (inflation); each partition compared, "
